@@ -1797,6 +1797,110 @@ def _devirtualise(modname, tree, inv):
     return n_done
 
 
+# ------------------------------------------------------------------ N15 loops over a small literal collection are unrolled
+
+def _doc_precedes(fn, a, b):
+    """statement a comes before statement b in the text of fn (document order of the tree as it is now, not line numbers)"""
+    order = {}
+
+    def rec(n):
+        order[id(n)] = len(order)
+        for c in ast.iter_child_nodes(n):
+            rec(c)
+    rec(fn)
+    return id(a) in order and id(b) in order and order[id(a)] < order[id(b)]
+
+
+def _unroll_literal_loops(fn):
+    """`saved = {s: orig}` ... `for k, v in saved.items(): store[k] = v`  ->  `store[s] = orig`.
+    Only when the collection is a literal of at most 4 entries made of plain names / constants / attribute chains, the name holding
+    it (if any) is bound once and used for nothing but such loops, the body has no break/continue and does not rebind what it reads
+    from the entries, and the loop variables are not read after the loop."""
+    n_done = 0
+
+    def simple(e):
+        while isinstance(e, ast.Attribute):
+            e = e.value
+        return isinstance(e, (ast.Name, ast.Constant))
+    stores, loads = {}, {}
+    for n in _walk_local(fn):
+        if isinstance(n, ast.Name):
+            (stores if isinstance(n.ctx, (ast.Store, ast.Del)) else loads).setdefault(n.id, []).append(n)
+    nested_names = {x.id for n in ast.walk(fn) if isinstance(n, FUNC + (ast.Lambda,)) and n is not fn for x in ast.walk(n) if isinstance(x, ast.Name)}
+    for blk in _blocks(fn):
+        i = 0
+        while i < len(blk):
+            lp = blk[i]
+            i += 1
+            if not isinstance(lp, ast.For) or lp.orelse:
+                continue
+            it, view = lp.iter, None
+            if isinstance(it, ast.Call) and isinstance(it.func, ast.Attribute) and it.func.attr in ("items", "keys", "values") and not it.args and not it.keywords:
+                it, view = it.func.value, it.func.attr
+            lit = it
+            if isinstance(it, ast.Name):
+                defs = stores.get(it.id, [])
+                if len(defs) != 1 or it.id in nested_names:
+                    continue
+                # the defining assignment: a plain statement of this function, before the loop
+                d = next((x for b_ in _blocks(fn) for x in b_ if isinstance(x, ast.Assign) and len(x.targets) == 1 and x.targets[0] is defs[0]), None)
+                if d is None or not _doc_precedes(fn, d, lp):
+                    continue
+                # every read of the name is the iterable of a for loop (directly or through .items()/.keys()/.values())
+                iters = set()
+                for f_ in _walk_local(fn):
+                    if isinstance(f_, ast.For):
+                        x = f_.iter
+                        if isinstance(x, ast.Call) and isinstance(x.func, ast.Attribute) and x.func.attr in ("items", "keys", "values") and not x.args:
+                            x = x.func.value
+                        iters.add(id(x))
+                if any(id(u) not in iters for u in loads.get(it.id, [])):
+                    continue
+                lit = d.value
+            if isinstance(lit, ast.Dict):
+                if any(k is None for k in lit.keys) or len(lit.keys) > 4 or not all(simple(x) for x in list(lit.keys) + list(lit.values)):
+                    continue
+                if len(lit.keys) > 1 and not (all(isinstance(k, ast.Constant) for k in lit.keys) and len({repr(k.value) for k in lit.keys}) == len(lit.keys)):
+                    continue          # keys that may be equal at run time collapse into one entry
+                entries = {"items": [ast.Tuple(elts=[k, v], ctx=ast.Load()) for k, v in zip(lit.keys, lit.values)], "keys": list(lit.keys), None: list(lit.keys), "values": list(lit.values)}[view]
+            elif isinstance(lit, (ast.List, ast.Tuple)) and view is None:
+                if len(lit.elts) > 4 or not all(simple(x) or (isinstance(x, ast.Tuple) and all(simple(y) for y in x.elts)) for x in lit.elts):
+                    continue
+                entries = list(lit.elts)
+            else:
+                continue
+            tnames = [x.id for x in ast.walk(lp.target) if isinstance(x, ast.Name)]
+            if not (isinstance(lp.target, ast.Name) or (isinstance(lp.target, ast.Tuple) and all(isinstance(x, ast.Name) for x in lp.target.elts))):
+                continue
+            body_nodes = [x for s_ in lp.body for x in ast.walk(s_)]
+            if any(isinstance(x, (ast.Break, ast.Continue, ast.Return, ast.Yield, ast.YieldFrom) + FUNC + (ast.Lambda,)) for x in body_nodes):
+                continue
+            stored_in_body = {x.id for x in body_nodes if isinstance(x, ast.Name) and isinstance(x.ctx, (ast.Store, ast.Del))}
+            entry_names = {x.id for e in entries for x in ast.walk(e) if isinstance(x, ast.Name)}
+            if stored_in_body & (entry_names | set(tnames)):
+                continue
+            if _read_before_rebound(blk[i:], set(tnames)):
+                continue
+            new = []
+            ok = True
+            for e in entries:
+                if isinstance(lp.target, ast.Tuple):
+                    if not (isinstance(e, ast.Tuple) and len(e.elts) == len(lp.target.elts)):
+                        ok = False
+                        break
+                    mapping = {t.id: v for t, v in zip(lp.target.elts, e.elts)}
+                else:
+                    mapping = {lp.target.id: e}
+                rn = _Renamer(mapping)
+                new += [rn.visit(copy.deepcopy(s_)) for s_ in lp.body]
+            if not ok:
+                continue
+            blk[i - 1:i] = new or [ast.copy_location(ast.Pass(), lp)]
+            i = i - 1 + len(new or [1])
+            n_done += 1
+    return n_done
+
+
 # ------------------------------------------------------------------ N7 nested ifs without else -> one conjunction
 
 def _merge_nested_ifs(fn):
@@ -2214,6 +2318,7 @@ def normalize(modname, tree):
             if isinstance(n, FUNC):
                 # N3 is not applied (see flow.return_alts: rules enumerate the alternatives of a conditional return themselves)
                 stats["split_assign"] = stats.get("split_assign", 0) + _split_parallel_assign(n)
+                stats["unrolled"] = stats.get("unrolled", 0) + _unroll_literal_loops(n)
                 stats["comprehensions"] += _loops_to_comprehensions(n)
                 stats["named_conditions"] += _named_conditions(n)
                 k = _thread_jumps(n)
